@@ -564,6 +564,16 @@ class YieldException {
     YieldException(bool from_loop = false) : is_from_loop(from_loop) {}
 };
 
+// An element access with an index outside the array: a std::runtime_error
+// like every other runtime error ("Array index out of bounds"). The type lets
+// a handler that falls back to another lookup strategy tell it from a lookup
+// that merely failed, and pass it on.
+class ArrayIndexOutOfBoundsError : public std::runtime_error {
+  public:
+    ArrayIndexOutOfBoundsError()
+        : std::runtime_error("Array index out of bounds") {}
+};
+
 class ReturnException {
   public:
     int64_t value;
@@ -1388,6 +1398,12 @@ class Interpreter : public EvaluatorInterface {
     std::string extract_array_name(const ASTNode *node);
     std::vector<int64_t> extract_array_indices(const ASTNode *node);
     std::string extract_array_element_name(const ASTNode *node);
+    // The elements of a struct array are struct variables named "arr[i]" that
+    // are created the first time they are used. Throws
+    // ArrayIndexOutOfBoundsError unless `index` names an element inside the
+    // declared size of the (one-dimensional) array `array_var`, so that no
+    // element is created or read outside the array.
+    void ensure_array_index_in_bounds(const Variable &array_var, int64_t index);
 
     // Compound assignment to an element, `T op= v`, is parsed as
     // `T = T' op v`. While such an assignment runs, the index values of its
